@@ -97,6 +97,52 @@ INVALID = [
 ]
 
 
+# ---- forwarding matrix: every way a function can hold data x every parameter type of a callee that writes through it,
+#      the argument always passed WITHOUT `&`.  No expectation about acceptance: whatever is accepted must leave the data alone.
+HOLD = [
+    # (id, declaration as parameter of `caller` or None, local declaration or None, argument in main, read expression)
+    ("local-scalar", None, "var b: i32 = 2;", None, "b"),
+    ("local-array", None, "var b: [4]i32 = [1, 2, 3, 4];", None, "b[1]"),
+    ("local-struct", None, "var b: S = S { a: 2, c: 3 };", None, "b.a"),
+    ("param-value", "b: i32", None, "2", "b"),
+    ("param-pointer", "b: &i32", None, "&x", "b"),
+    ("param-view", "b: []i32", None, "data", "b[1]"),
+    ("param-slice-pointer", "b: &[]i32", None, "&data", "b[1]"),
+    ("param-array-pointer", "b: &[4]i32", None, "&data", "b[1]"),
+    ("param-struct-view", "b: S", None, "st", "b.a"),
+    ("param-struct-pointer", "b: &S", None, "&st", "b.a"),
+]
+TAKE = [
+    # (parameter type of the callee, write through it)
+    ("i32", "p = 9;"), ("&i32", "p = 9;"), ("[]i32", "p[1] = 9;"), ("&[]i32", "p[1] = 9;"), ("[4]i32", "p[1] = 9;"),
+    ("&[4]i32", "p[1] = 9;"), ("[..]i32", "p[1] = 9;"), ("&[..]i32", "p[1] = 9;"), ("S", "p.a = 9;"), ("&S", "p.a = 9;"),
+    ("(S)", "p.a = 9;"), ("([]i32)", "p[1] = 9;"), ("&&i32", "p = 9;"),
+]
+
+
+def forwarding_matrix():
+    out = []
+    for hid, hparam, hlocal, harg, read in HOLD:
+        for ptype, write in TAKE:
+            for ext in ("", "extern "):
+                for via in ("direct", "twice"):
+                    callee = "%sfn callee(p: %s)\n{\n\t%s\n}\n" % (ext, ptype, write)
+                    middle = ""
+                    call = "callee(b);"
+                    if via == "twice":
+                        # one more hop that only forwards, again without `&`
+                        middle = "fn middle(q: %s)\n{\n\tcallee(q);\n}\n" % ptype
+                        call = "middle(b);"
+                    caller = ("fn caller(%s) -> i32\n{\n%s\tvar before: i32 = %s;\n\t%s\n\tvar after: i32 = %s;\n"
+                              "\treturn: after - before\n}\n" % (hparam or "", ("\t" + hlocal + "\n") if hlocal else "", read, call, read))
+                    main = ("fn main() -> i32\n{\n\tvar x: i32 = 2;\n\tvar data: [4]i32 = [1, 2, 3, 4];\n"
+                            "\tvar st: S = S { a: 2, c: 3 };\n\tvar r: i32 = caller(%s);\n"
+                            "\treturn: r + (x - 2) + (data[1] - 2) + (st.a - 2)\n}\n" % (harg or ""))
+                    src = "struct S\n{\n\ta: i32,\n\tc: i32,\n}\n" + callee + middle + caller + main
+                    out.append(("%s -> %s%s (%s)" % (hid, ext, ptype, via), src))
+    return out
+
+
 def main():
     rep = Reporter("C08")
     if not setup_common(rep, THEOREMS):
@@ -163,6 +209,27 @@ def main():
         else:
             rep.violation("static:" + src, {"why": "expected %s, compiler says %s %s" % ("E%d" % exp if exp else "acceptance", hh, codes),
                                             "source": src, "harness_request": "alpha\tcheck\tm.pn\t" + esc(src), "implementation": ha[:300]})
+    # forwarding matrix
+    fm = forwarding_matrix()
+    fh = run_harness(["alpha\trun\tm.pn\t" + esc(src) for _, src in fm])
+    for (what, src), ha in zip(fm, fh):
+        total += 1
+        hh, hd = kv(ha)
+        if hh != "ok":
+            dist["matrix:" + (hh if hh != "err" else "rejected")] += 1
+            if hh not in ("err",):
+                # crashes / internal errors are C02's business; not an acceptance
+                pass
+            agreeing += 1
+            continue
+        dist["matrix:accepted"] += 1
+        if hd.get("status") != "0":
+            rep.violation("matrix:" + what, {
+                "why": "accepted, and data held by the caller changed although every argument on the way was passed without `&` "
+                       "(exit status %s = after - before)" % hd.get("status"),
+                "source": src, "harness_request": "alpha\trun\tm.pn\t" + esc(src), "implementation": ha[:300]})
+        else:
+            agreeing += 1
     report_broken_proof(rep)
     rep.coverage.update({
         "evaluations": total, "distinct_nontrivial": total,
@@ -170,7 +237,9 @@ def main():
                 "write or only read through a pointer, a by-value parameter, a slice pointer, an array view, a struct pointer, a "
                 "struct view, a forwarded pointer and an aliasing pointer variable (random integer type and values): stdout vs the "
                 "Lean interpreter AND the static prediction 'unchanged unless passed with &'; plus the fixed rule table "
-                "(E530 writes/addresses, E531-E533 aggregate copies, E513 missing &) vs the compiler and the Lean writeVerdict",
+                "(E530 writes/addresses, E531-E533 aggregate copies, E513 missing &) vs the compiler and the Lean writeVerdict; plus "
+                "the forwarding matrix: 10 ways a function can hold data x 13 parameter types of a writing callee x extern/plain x "
+                "direct/forwarded, every argument passed without `&`: whatever is accepted must leave the data unchanged",
         "traces_validated_against_impl": agreeing, "distribution": dict(dist), "samples": [srcs[0][:1200]],
     })
     return rep.finish()
